@@ -264,5 +264,8 @@ def run(run):
     xs = [(a, b, n, how) for (a, b, n) in ((3, 4, 5), (2, 6, 6), (5, 5, 3)) for how in ("inner", "left")]
     run_cases(run, "vf.props.C12", "x_case", xs, {}, chunk=1)
     run.assume("hash quality and the p2p shuffle are outside the claim; disk shuffle is only checked end-to-end (tier R)")
+    from vf.contracts.registry import run_property_specs
+
+    run_property_specs(run, "C12")
     run.trust("abstract graph interpreter vf/rt/graphsem.py with assumed contracts for dask.dataframe.shuffle.{shuffle_group, shuffle_group_2, shuffle_group_get}, dask.dataframe.core._concat, operator.getitem (cross-checked on every run)")
     run.assume("A2: the float expressions stages = ceil(log(n_in)/log(max_branch)) and nsplits = ceil(n_in ** (1/stages)) are executed concretely in CPython for every (n_in, max_branch) of the bound, not proved")
